@@ -1,6 +1,7 @@
 //! lv_front: query front end (C12) and the canary differential (C11).
 mod api;
 mod ast;
+mod canary;
 mod canon;
 mod db;
 mod features;
@@ -8,6 +9,12 @@ mod gen;
 mod parse;
 
 fn main() {
-    let v: Vec<Box<dyn lvharness::suite::Suite>> = vec![Box::new(parse::Parse), Box::new(api::Api)];
+    let args: Vec<String> = std::env::args().collect();
+    if args.len() >= 3 && args[1] == "c11-child" {
+        std::panic::set_hook(Box::new(|_| {}));
+        canary::child_main(&args[2]);
+        return;
+    }
+    let v: Vec<Box<dyn lvharness::suite::Suite>> = vec![Box::new(parse::Parse), Box::new(api::Api), Box::new(canary::Canary)];
     lvharness::cli_main(v);
 }
